@@ -65,7 +65,9 @@ def case(draw):
     if cmds[0]["c"] in ("g", "v"):
         cmds = cmds[:1]            # a nested global takes the rest of the line as its own command list
     return {"lines": lines, "g": {"c": draw(st.sampled_from(["g", "g", "v"])), "a": a, "pat": draw(exgen.simple_pat()), "cmds": cmds},
-            "blk": draw(st.sampled_from([["T1"], ["T1", "T2"], [], ["T foo"]]))}
+            "blk": draw(st.sampled_from([["T1"], ["T1", "T2"], [], ["T foo"]])),
+            # an earlier global that is rejected (pattern does not compile / range does not resolve) must leave no state behind
+            "prior": draw(st.sampled_from(["", "", "g/[a/d\n", "99g/x/d\n", "g/(/d\n", "v/[[:alpha:/d\n"]))}
 
 
 def strategy(tier):
@@ -93,7 +95,7 @@ def run_case(env, c):
     ed2.cmd(c["g"])
     alt = ed2.text()
     script = "se noic\nrs a\nREG1\nREG2\n.\n$a\nMARKER\n.\n%w! pre\n"
-    script += exgen.cmd_text(c["g"]) + "\n"
+    script += c.get("prior", "") + exgen.cmd_text(c["g"]) + "\n"
     script += ("".join(l + "\n" for l in c["blk"]) + ".\n") * nblk
     script += "%w! out1\nu\n%w! out2\nu\n%w! out3\n"
     runner.write_file(d, "f", gen.to_bytes(orig))
